@@ -82,6 +82,12 @@ class Check(object):
         self.logged = {}
         self.mc_runs = []
         self.max_viol_print = 20
+        self._classes_written = set()
+        d = os.path.join(VERIF, 'out', 'replay')
+        if os.path.isdir(d):
+            for fn in os.listdir(d):
+                if fn.startswith(pid + '-'):
+                    os.unlink(os.path.join(d, fn))
 
     @property
     def quick(self):
@@ -117,7 +123,8 @@ class Check(object):
         d = os.path.join(VERIF, 'out', 'replay')
         os.makedirs(d, exist_ok=True)
         path = os.path.join(d, '%s-%s.json' % (self.pid, h))
-        if len(self.violations) < 200:
+        if len(self.violations) < 200 or cls not in self._classes_written:
+            self._classes_written.add(cls)
             with open(path, 'w') as f:
                 json.dump(rec, f, indent=1, default=jdefault)
         self.violations.append({'class': cls, 'replay': path})
@@ -168,6 +175,12 @@ class Check(object):
             json.dump(ev, f, indent=1, default=jdefault)
         if len(self.violations) > self.max_viol_print:
             print('... %d violations in total' % len(self.violations))
+        if self.violations:
+            cc = {}
+            for v in self.violations:
+                cc[v['class']] = cc.get(v['class'], 0) + 1
+            for k in sorted(cc, key=lambda k: -cc[k])[:40]:
+                print('  violation-class %-60s %d' % (k, cc[k]))
         print('%s %s tier=%s seed=%d states=%d traces=%d evaluations=%d nontrivial=%d violations=%d wall=%.1fs' % (
             self.pid, 'FAIL' if self.violations else 'ok', self.tier, self.seed, self.states, self.traces,
             self.evaluations, len(self.nontrivial), len(self.violations), wall))
